@@ -8,7 +8,10 @@ Open Scope N_scope.
 
 Inductive c10case :=
 | XCase (mode : N) (t : ty) (ms : list mangler) (impl_tt : outcome ty) (filled : list val)
-        (oracle : list (str * ty * outcome tval)) (impl : outcome tval).
+        (oracle : list (str * ty * outcome tval)) (impl : outcome tval)
+(* two ReverseTranslate calls on the same Transformer; the first result is the
+   one read AFTER the second call *)
+| XTwice (first second : c10case).
 
 (* ---- comparison modulo tag order (alias tags are appended in Go map order)
         and modulo map entry order ---- *)
@@ -135,8 +138,9 @@ Definition all_nil (vs : list val) : bool := forallb is_vnil vs.
    not speak about (translated type's tags, types outside the quantifier);
    3 the property fails on this case; 10+k it fails, implementation = model,
    and the case is in known-finding class k *)
-Definition check (c : c10case) : N :=
+Fixpoint check (c : c10case) : N :=
   match c with
+  | XTwice a b => let v := check a in if v =? 0 then check b else v
   | XCase mode t ms itt filled oracle impl =>
       let mtt := omap fst (model_translate t ms) in
       let corr_t := ty_out_eqb itt mtt in
